@@ -35,7 +35,7 @@ pub fn extra_evidence(_prop: &str, _tier: &str) -> Option<Value> {
 fn make_engine(prop: &str) -> Option<Box<dyn Engine>> {
     match prop {
         "C01" | "C02" | "C16" | "C19" => Some(Box::new(histx::HistX::new())),
-        "C03" | "C04" | "C17" => Some(Box::new(crashx::CrashX::new())),
+        "C03" | "C04" | "C14" | "C17" => Some(Box::new(crashx::CrashX::new())),
         "C07" | "C08" | "C18" => Some(Box::new(proofx::ProofX::new())),
         _ => None,
     }
@@ -102,7 +102,12 @@ fn main() {
             let v: Value = serde_json::from_slice(&data).expect("replay json");
             let prop = v["property"].as_str().unwrap().to_string();
             let mut engine = make_engine(&prop).expect("engine");
-            let o = engine::run_guarded(engine.as_mut(), &prop, &v["case"]);
+            let plan = engine.plan(&prop, "quick");
+            let o = if plan.isolate {
+                engine::run_isolated(&prop, &v["case"], plan.case_timeout_s, plan.timeout_is_violation)
+            } else {
+                engine::run_guarded(engine.as_mut(), &prop, &v["case"])
+            };
             let all: Vec<_> = o.violation.into_iter().chain(o.more.into_iter()).collect();
             if all.is_empty() {
                 println!("replay: property held on this case");
